@@ -385,7 +385,22 @@ def symisinstance(obj, cls):
         if _real_isinstance(cls, tuple) and int in cls:
             return True
         return False
+    # `dict` / `set` are shadowed by subclasses in the module under
+    # analysis: a type test against them means the built-in types
+    if _real_isinstance(cls, type):
+        cls = _unshadow(cls)
+    elif _real_isinstance(cls, tuple):
+        cls = tuple(_unshadow(k) for k in cls)
     return _real_isinstance(obj, cls)
+
+
+def _unshadow(cls):
+    if _real_isinstance(cls, type):
+        if cls is not dict and issubclass(cls, dict) and cls.__name__.startswith('HDict'):
+            return dict
+        if cls is not set and issubclass(cls, set) and cls.__name__.startswith('HSet'):
+            return set
+    return cls
 
 
 # --------------------------------------------------------------------------
@@ -430,6 +445,7 @@ def run_path(harness, prefix):
 
 
 _W_HARNESS = None
+_PATHS_SINCE_GC = 0
 
 
 def _w_init(mod, params):
@@ -444,15 +460,27 @@ def _w_task(args):
     work = [prefix]
     done = []
     t0 = time.time()
+    import gc
     while work and len(done) < budget and (time.time() - t0) < tbudget:
         p = work.pop()
         r = run_path(_W_HARNESS, p)
+        global CTX, _PATHS_SINCE_GC
+        CTX = None
+        _PATHS_SINCE_GC += 1
+        if _PATHS_SINCE_GC >= 200:
+            _PATHS_SINCE_GC = 0
+            gc.collect()
         work.extend(r.pop('work'))
         done.append(r)
     return done, work
 
 
 def _worker_main(conn, mod, params):
+    # no cyclic collection inside z3 calls: a `__del__` of the code under
+    # analysis (dd.autoref.Function, dd.bdd.BDD) that runs on proxies in the
+    # middle of a solver call re-enters z3 and corrupts it
+    import gc
+    gc.disable()
     try:
         _w_init(mod, params)
     except BaseException:
